@@ -17,6 +17,7 @@ RULE = ("four drivers: (1) StandardCombi on Trapezoidal(boundary on/off)/Simpson
         "and with sum w_i f(p_i) over get_points_and_weights(). distinct = digest(driver, configuration, number of evaluations); "
         "non-trivial = >=2 evaluations (adaptive drivers) or lmax>lmin (standard)")
 RULE += (" " + 'Grid variety: (3) runs on GlobalTrapezoidalGrid and on GlobalHighOrderGrid (max_degree 2/3/5, split_up on/off; the surplus grid stays trapezoidal), (4) on Trapezoidal and on the high-order Clenshaw-Curtis / Gauss-Legendre grids with automatic_extend_split (parent-estimation path).')
+RULE += (" StandardCombi objects carry a history (other levels, point queries, interpolation) in 40% of the cases; point/weight queries are repeated and must be pure observations.")
 REQUIRED = ["recomputation_standard", "points_and_weights_standard", "recomputation_dimadaptive", "recomputation_dimwise",
             "final_combi_on_copy", "reevaluate_twin", "points_and_weights_dimwise", "recomputation_extsplit"]
 MIN_NONTRIVIAL = {"quick": 120, "thorough": 1500}
@@ -94,6 +95,16 @@ def run_standard(case, res):
     cfg = {"grid": gname, "d": d, "lmin": lmin, "lmax": lmax, "a": a.tolist(), "b": b.tolist(), "nout": len(comps)}
     res.sample = {"config": cfg}
     with contextlib.redirect_stdout(io.StringIO()):
+        if rng.random() < 0.4:
+            # the object (operation, grid, scheme generator) was used before: other levels, point queries, the same levels
+            for _ in range(rng.choice([1, 2])):
+                l0 = rng.randint(1, max(1, lmax - 1))
+                combi.perform_operation(l0, min(lmax, l0 + rng.choice([0, 1, 2])))
+                if rng.random() < 0.5:
+                    combi.get_points_and_weights()
+                if rng.random() < 0.3:
+                    combi([tuple(float(a[k] + rng.random() * (b[k] - a[k])) for k in range(d))])
+            res.count("standard_object_history")
         scheme, err, result = combi.perform_operation(lmin, lmax)
     f2 = hooks.VFunction(comps)
     g2 = mk()
@@ -107,6 +118,10 @@ def run_standard(case, res):
     tol = 1e-12 * np.maximum(np.sum(np.abs(vals * np.asarray(w)[:, None]), axis=0), 1e-300) * 8
     res.close("points_and_weights_standard", sw, np.asarray(result, dtype=float), tol, "C05_standard_points_weights:" + gname,
               "sum w_i f(p_i) over get_points_and_weights() differs from the reported integral", cfg)
+    pts2, w2 = combi.get_points_and_weights()      # asking again is a pure observation
+    res.check("points_and_weights_repeatable", len(pts2) == len(pts) and np.array_equal(np.asarray(w2, dtype=float), np.asarray(w, dtype=float))
+              and np.array_equal(np.asarray(pts2, dtype=float), np.asarray(pts, dtype=float)), "C05_standard_points_weights_change_on_second_request:" + gname,
+              "a second get_points_and_weights() returns different points or weights", cfg)
     res.hash = digest(cfg)
     res.nontrivial = lmax > lmin
     res.states.add(gname)
@@ -225,6 +240,11 @@ def run_dimwise(case, res):
     tol = 1e-12 * np.maximum(np.sum(np.abs(vals * np.asarray(w)[:, None]), axis=0), 1e-300) * 8
     res.close("points_and_weights_dimwise", sw, final, tol, "C05_dimwise_points_weights",
               "sum w_i f(p_i) over get_points_and_weights() differs from the reported integral", {"cfg": cfg})
+    pts2, w2 = c.get_points_and_weights()
+    res.check("points_and_weights_repeatable", len(pts2) == len(pts) and np.array_equal(np.asarray(w2, dtype=float), np.asarray(w, dtype=float)),
+              "C05_dimwise_points_weights_change_on_second_request", "a second get_points_and_weights() returns different weights", {"cfg": cfg})
+    res.close("result_unchanged_by_point_queries", np.array(c.operation.get_result(), dtype=float), final, 0.0 * final,
+              "C05_dimwise_result_changed_by_point_query", "get_points_and_weights() changed the stored result", {"cfg": cfg})
     # (c) twin runs with the stop fixed by max_evaluations
     npts = c.get_total_num_points()
     outs = []
